@@ -562,3 +562,180 @@ theorem setup_supp2 (cfg : Cfg) (rank : Name → Nat) (hdag : NameDag cfg.db ran
       exact this
 
 end EupsModel.Setup
+
+namespace EupsModel.Setup
+
+/-! ### required dependencies of set-up products are set up (closures with one version per name, no `-j`, no `max_depth`) -/
+
+/-- every `setupRequired` line of the table of every set-up product of `S` outside `Y` has its target set up -/
+def ReqSat (cfg : Cfg) (S Y : Name → Prop) (e : Env) : Prop :=
+  ∀ p v, S p → ¬ Y p → e.rec? p = some v →
+    ∀ m j x y t, Act.dep m false j x y t ∈ tableOf cfg (p, v) → ∃ w, e.rec? m = some w
+
+def ReqSpec (cfg : Cfg) (S : Name → Prop) (rec : Rec) : Prop :=
+  ∀ (Y : Name → Prop) depth vro n ver vexpr s s', S n → (depth > 0 ∨ setupProd cfg.db s.env n = none) →
+    AlreadyOK cfg.db s.already → RecsDeclared cfg.db s.env → ReqSat cfg S Y s.env →
+    rec true depth false vro n ver vexpr s = .ok s' →
+    ReqSat cfg S Y s'.env ∧ Grow s.env s'.env ∧ RecsDeclared cfg.db s'.env ∧ ∃ w, s'.env.rec? n = some w
+
+theorem reqSat_grow {cfg : Cfg} {S Y : Name → Prop} {e e' : Env} (h : ReqSat cfg S Y e) (hg : Grow e e')
+    (hsame : ∀ p v, S p → ¬ Y p → e'.rec? p = some v → e.rec? p = some v) : ReqSat cfg S Y e' := by
+  intro p v hp hy hr m j x y t hline
+  obtain ⟨w, hw⟩ := h p v hp hy (hsame p v hp hy hr) m j x y t hline
+  exact ⟨w, hg m w hw⟩
+
+theorem acts_true_req (cfg : Cfg) (S : Name → Prop) (hmd : cfg.maxDepth = none) (hcl : Closed cfg.db S)
+    (hnj : NoJust cfg.db S) (rec : Rec) (hal : AlOK cfg rec) (hrec : ReqSpec cfg S rec) (Y : Name → Prop) (depth : Nat)
+    (vro : List VroEnt) (d : Decl) (hc : Canon cfg.db d) (hSd : S d.name) (l : List Act)
+    (hl : ∀ a ∈ l, a ∈ d.actions cfg.exact) :
+    ∀ s s', AlreadyOK cfg.db s.already → RecsDeclared cfg.db s.env →
+      ReqSat cfg S (fun m => Y m ∨ m = d.name) s.env → acts rec cfg true depth false vro d l s = .ok s' →
+      ReqSat cfg S (fun m => Y m ∨ m = d.name) s'.env ∧ Grow s.env s'.env ∧ RecsDeclared cfg.db s'.env ∧
+      (∀ m j x y t, Act.dep m false j x y t ∈ l → ∃ w, s'.env.rec? m = some w) := by
+  induction l with
+  | nil => intro s s' _ hd hq h; simp [acts] at h; subst h; exact ⟨hq, fun _ _ h => h, hd, by simp⟩
+  | cons a rest ih =>
+    have hl' : ∀ a ∈ rest, a ∈ d.actions cfg.exact := fun a hm => hl a (List.mem_cons_of_mem _ hm)
+    intro s s' ha hd hq h
+    by_cases hdep : ∃ n o j v x t, a = .dep n o j v x t
+    · obtain ⟨n, o, j, v, x, t, rfl⟩ := hdep
+      obtain ⟨g, hg⟩ := mem_actions d cfg.exact _ (hl _ (List.mem_cons_self))
+      have hdmem := (lookup_some cfg.db d.prod d hc).1
+      have hSn : S n := hcl d hdmem hSd g n o j v x t hg
+      have hj : j = false := hnj d hdmem hSd g n o j v x t hg
+      subst hj
+      simp only [acts, hmd, Bool.false_or] at h
+      simp only [reduceCtorEq, decide_false, Bool.false_eq_true, if_false] at h
+      split at h
+      · rename_i s1 hr1
+        obtain ⟨hq1, hg1, hd1, w1, hw1⟩ := hrec (fun m => Y m ∨ m = d.name) _ _ _ _ _ _ _ hSn (Or.inl (Nat.succ_pos _))
+          ha hd hq hr1
+        obtain ⟨hq2, hg2, hd2, hdone2⟩ := ih hl' s1 s' (hal _ _ _ _ _ _ _ _ _ ha (by rw [hr1]; rfl)) hd1 hq1 h
+        refine ⟨hq2, fun m w hm => hg2 m w (hg1 m w hm), hd2, ?_⟩
+        intro m j' x' y' t' hm
+        simp only [List.mem_cons] at hm
+        rcases hm with hm | hm
+        · cases hm; exact ⟨w1, hg2 n w1 hw1⟩
+        · exact hdone2 m j' x' y' t' hm
+      · cases h
+      · rename_i s1 hr1
+        have h1 : AlreadyOK cfg.db s1.already := hal _ _ _ _ _ _ _ _ _ ha (by rw [hr1]; rfl)
+        split at h
+        · cases h
+        · rename_i hopt
+          obtain ⟨hq2, hg2, hd2, hdone2⟩ := ih hl' ⟨s.env, s.aliases, s.unaliased, s1.already⟩ s' h1 hd hq h
+          refine ⟨hq2, hg2, hd2, ?_⟩
+          intro m j' x' y' t' hm
+          simp only [List.mem_cons] at hm
+          rcases hm with hm | hm
+          · cases hm; simp at hopt
+          · exact hdone2 m j' x' y' t' hm
+      · rename_i s1 hr1
+        have h1 : AlreadyOK cfg.db s1.already := hal _ _ _ _ _ _ _ _ _ ha (by rw [hr1]; rfl)
+        split at h
+        · cases h
+        · rename_i hopt
+          obtain ⟨hq2, hg2, hd2, hdone2⟩ := ih hl' ⟨s.env, s.aliases, s.unaliased, s1.already⟩ s' h1 hd hq h
+          refine ⟨hq2, hg2, hd2, ?_⟩
+          intro m j' x' y' t' hm
+          simp only [List.mem_cons] at hm
+          rcases hm with hm | hm
+          · cases hm; simp at hopt
+          · exact hdone2 m j' x' y' t' hm
+    · have hnd : ∀ n o j v x t, a ≠ .dep n o j v x t := fun n o j v x t e => hdep ⟨n, o, j, v, x, t, e⟩
+      rw [acts_cons_nondep rec cfg true depth false vro d a rest s hnd] at h
+      have hrecs : ∀ n, (a.apply true d.prod s).env.rec? n = s.env.rec? n := fun n => apply_rec? true d.prod a s n
+      have hq1 : ReqSat cfg S (fun m => Y m ∨ m = d.name) (a.apply true d.prod s).env := by
+        intro p v hp hy hr m j x y t hline
+        rw [hrecs] at hr
+        obtain ⟨w, hw⟩ := hq p v hp hy hr m j x y t hline
+        exact ⟨w, by rw [hrecs]; exact hw⟩
+      obtain ⟨hq2, hg2, hd2, hdone2⟩ := ih hl' _ s' (by simpa using ha)
+        (fun n v h => hd n v (by rw [← hrecs]; exact h)) hq1 h
+      refine ⟨hq2, fun m w hm => hg2 m w (by rw [hrecs]; exact hm), hd2, ?_⟩
+      intro m j x y t hm
+      simp only [List.mem_cons] at hm
+      rcases hm with hm | hm
+      · exact absurd hm.symm (hnd m false j x y t)
+      · exact hdone2 m j x y t hm
+
+theorem install_req (cfg : Cfg) (S : Name → Prop) (hmd : cfg.maxDepth = none) (hcl : Closed cfg.db S)
+    (hnj : NoJust cfg.db S) (hone : OneVersion cfg.db S) (rec : Rec) (hal : AlOK cfg rec) (hrec : ReqSpec cfg S rec)
+    (Y : Name → Prop) (depth : Nat) (vro : List VroEnt) (d : Decl) (reason : Option VroEnt) (hc : Canon cfg.db d)
+    (hSd : S d.name) (s s' : St) (hdepth : depth > 0 ∨ setupProd cfg.db s.env d.name = none)
+    (ha : AlreadyOK cfg.db s.already) (hd : RecsDeclared cfg.db s.env) (hq : ReqSat cfg S Y s.env)
+    (h : install rec cfg depth false vro d reason s = .ok s') :
+    ReqSat cfg S Y s'.env ∧ Grow s.env s'.env ∧ RecsDeclared cfg.db s'.env ∧ ∃ w, s'.env.rec? d.name = some w := by
+  unfold install at h
+  cases hsp : setupProd cfg.db s.env d.name with
+  | none =>
+    rw [hsp] at h
+    have hnone := setupProd_none_of_declared cfg.db s.env hd d.name hsp
+    have hgrow : Grow s.env (record d reason s).env := by
+      intro m w hm
+      have hne : m ≠ d.name := by intro e; rw [e, hnone] at hm; cases hm
+      rw [record_rec?_other d reason s m hne]; exact hm
+    have hd2 : RecsDeclared cfg.db (record d reason s).env := by
+      intro n v hr
+      by_cases hn : n = d.name
+      · subst hn
+        rw [record_rec?_same] at hr
+        have hv : d.ver = v := Option.some.inj hr
+        subst hv
+        exact ⟨d, hc⟩
+      · rw [record_rec?_other d reason s n hn] at hr; exact hd n v hr
+    have hq2 : ReqSat cfg S (fun m => Y m ∨ m = d.name) (record d reason s).env := by
+      intro p v hp hy hr m j x y t hline
+      have hne : p ≠ d.name := fun e => hy (Or.inr e)
+      rw [record_rec?_other d reason s p hne] at hr
+      obtain ⟨w, hw⟩ := hq p v hp (fun h => hy (Or.inl h)) hr m j x y t hline
+      exact ⟨w, hgrow m w hw⟩
+    obtain ⟨hq3, hg3, hd3, hdone3⟩ := acts_true_req cfg S hmd hcl hnj rec hal hrec Y depth vro d hc hSd _ (fun _ hm => hm)
+      (record d reason s) s' (alreadyOK_aset cfg.db _ ha d reason hc) hd2 hq2 h
+    have hrd : s'.env.rec? d.name = some d.ver := hg3 _ _ (record_rec?_same d reason s)
+    refine ⟨?_, fun m w hm => hg3 m w (hgrow m w hm), hd3, ⟨d.ver, hrd⟩⟩
+    intro p v hp hy hr m j x y t hline
+    by_cases hpd : p = d.name
+    · subst hpd
+      rw [hrd] at hr
+      have hv : d.ver = v := Option.some.inj hr
+      subst hv
+      have : tableOf cfg (d.name, d.ver) = d.actions cfg.exact := tableOf_canon cfg d hc
+      rw [this] at hline
+      exact hdone3 m j x y t hline
+    · exact hq3 p v hp (fun h => h.elim hy hpd) hr m j x y t hline
+  | some sd =>
+    rw [hsp] at h
+    obtain ⟨hcs, hname, hrs⟩ := setupProd_some cfg.db s.env d.name sd hsp
+    have hver : sd.ver = d.ver :=
+      hone d (lookup_some cfg.db d.prod d hc).1 sd (lookup_some cfg.db sd.prod sd hcs).1 hSd hname
+    have hpos : depth > 0 := by
+      rcases hdepth with h1 | h1
+      · exact h1
+      · rw [hsp] at h1; cases h1
+    have hskip : ((sd.ver == d.ver || sd.dir == d.dir) && decide (depth > 0)) = true := by simp [hver, hpos]
+    simp only [hskip, if_true] at h
+    simp at h; subst h
+    exact ⟨hq, fun _ _ h => h, hd, ⟨sd.ver, hrs⟩⟩
+
+theorem setup_req (cfg : Cfg) (S : Name → Prop) (hmd : cfg.maxDepth = none) (hcl : Closed cfg.db S)
+    (hnj : NoJust cfg.db S) (hone : OneVersion cfg.db S) : ∀ fuel, ReqSpec cfg S (setup cfg fuel) := by
+  intro fuel
+  induction fuel with
+  | zero => intro Y depth vro n ver vexpr s s' _ _ _ _ _ h; simp [setup_zero] at h
+  | succ k ih =>
+    intro Y depth vro n ver vexpr s s' hSn hdepth ha hd hq h
+    rw [setup_succ_true] at h
+    cases hres : resolve cfg.db cfg.keep s.already n ver vexpr depth vro.length vro with
+    | none => rw [hres] at h; cases h
+    | error => rw [hres] at h; cases h
+    | found d reason =>
+      rw [hres] at h
+      obtain ⟨hc, hname⟩ := resolve_spec cfg.db cfg.keep s.already ha n ver vexpr depth _ _ _ _ hres
+      have henv := register_env cfg depth d reason s
+      have := install_req cfg S hmd hcl hnj hone (setup cfg k) (setup_alOK cfg k) ih Y depth vro d reason hc
+        (by rw [hname]; exact hSn) (register cfg depth d reason s) s' (by rw [henv, hname]; exact hdepth)
+        (register_already cfg depth d reason s ha hc) (by rw [henv]; exact hd) (by rw [henv]; exact hq) h
+      rw [henv, hname] at this; exact this
+
+end EupsModel.Setup
